@@ -122,11 +122,14 @@ class Tapes:
     mode 'record': the real kernels answer and are recorded; mode 'forced': the harness answers with
     permutations of its own choice (any permutation meets the contract)."""
 
-    def __init__(self, rng, n, mode, flavour="mixed"):
-        self.rng, self.n, self.mode, self.flavour = rng, n, mode, flavour
-        self.rcm, self.rnd = [], []
+    def __init__(self, rng, n, mode, flavour="mixed", spy=False, rnd_mode=None):
+        self.rng, self.n, self.mode, self.flavour, self.spy = rng, n, mode, flavour, spy
+        self.rnd_mode = rnd_mode or mode
+        self.rcm, self.rnd, self.candidates = [], [], []
 
     def _forced(self, real):
+        if self.flavour == "identity":          # an RCM that never improves anything (still a permutation)
+            return list(range(self.n))
         r = self.rng.random()
         if self.flavour == "random" or r < 0.5:
             return pc.rand_perm(self.rng, self.n)
@@ -152,14 +155,30 @@ class Tapes:
             self.rcm.append(p)
             return np.array(p, dtype=np.int32)
 
-        def rp(L, *a, **kw):
-            if self.mode == "record":
-                r = real_rp(L, *a, **kw)
+        def rp(L, *a, out=None, **kw):
+            # faithful to torch.randperm: with `out=` the answer is written INTO the caller's buffer and that
+            # very tensor is returned (aliasing is part of the behaviour of the code under test)
+            if self.rnd_mode == "record":
+                r = real_rp(L, *a, out=out, **kw) if out is not None else real_rp(L, *a, **kw)
             else:
                 r = torch.tensor(pc.rand_perm(self.rng, int(L)), dtype=torch.int64)
+                if out is not None:
+                    out.resize_(r.shape).copy_(r)
+                    r = out
             self.rnd.append([int(i) for i in r.tolist()])
             return r
+
+        real_impl = opt.minimize_bandwidth_impl
+
+        def impl_spy(matrix, initial_perm):
+            # candidates as they are *at return time* (copies): what `min` is entitled to choose from
+            p, bw = real_impl(matrix, initial_perm)
+            self.candidates.append(([int(i) for i in p.tolist()], float(bw)))
+            return p, bw
+        self.candidates = []
         self._cm = [mock.patch.object(opt, "reverse_cuthill_mckee", rcm), mock.patch.object(torch, "randperm", rp)]
+        if self.spy:
+            self._cm.append(mock.patch.object(opt, "minimize_bandwidth_impl", impl_spy))
         for c in self._cm:
             c.__enter__()
         return self
@@ -256,6 +275,23 @@ def oracle_minimize(M, status, perm):
     A = [[abs(x) for x in row] for row in M]
     if py_bandwidth(A, perm) > py_bandwidth(M):
         return f"bandwidth of the returned order {py_bandwidth(A, perm)!r} > original {py_bandwidth(M)!r}"
+    return None
+
+
+def oracle_best(M, perm, candidates):
+    """`min(candidates, key=bandwidth)`: the returned order must be (a copy of) the first candidate of
+    minimal bandwidth, and its ACTUAL bandwidth on |M| must be that minimum (theorem `choose_best_spec`)."""
+    if not candidates:
+        return None
+    A = [[abs(x) for x in row] for row in M]
+    best = min(bw for _, bw in candidates)
+    first = next(p for p, bw in candidates if bw == best)
+    actual = py_bandwidth(A, perm)
+    if actual != best:
+        return (f"returned order {perm} has bandwidth {actual!r} but the best candidate {first} has {best!r} "
+                f"(original order: {py_bandwidth(M)!r})")
+    if perm != first:
+        return f"returned order {perm} is not the first best candidate {first} (min(...) keeps the first minimum)"
     return None
 
 
@@ -366,13 +402,17 @@ def corr_minimize(rep, rng, ncases, big):
         samples = rng.choice([0, 1, 2, 3, 5]) if k >= big else (100 if k == 0 else 10)
         if n > 20 and k >= big:
             samples = min(samples, 2)
-        if rng.random() < 0.15:
+        if rng.random() < 0.15 and n:
             kind, M = gen_asym(rng, n)
         else:
             kind, M = gen_matrix(rng, n)
-        tapes = Tapes(rng, n, mode)
+        tapes = Tapes(rng, n, mode, rng.choice(["mixed", "mixed", "identity"]), spy=True)
         torch.manual_seed(rng.randrange(2 ** 31))
         status, perm = run_minimize(M, samples, tapes)
+        if status == "ok":
+            msg = oracle_best(M, perm, tapes.candidates)
+            if msg:
+                rep.fail(msg, dict(kind="minimize", M=M, samples=samples, mode="forced", rcm=tapes.rcm, rnd=tapes.rnd, best=True))
         if tapes.mutated:
             rep.fail(INPLACE_MSG.format("minimize_bandwidth", "matrix"), dict(kind="inplace", fn="minimize_bandwidth", M=M, samples=min(samples, 2)))
         rep.hist("input_has_negative_entry", any(x < 0 or (x == 0 and math.copysign(1, x) < 0) for row in M for x in row))
@@ -440,6 +480,7 @@ def check(rep: Report, tier: str, seed: int) -> None:
     pc.helper_correspondence(rep, rng, 200 if quick else 6000)
     laws(rep, rng, 150 if quick else 4000)
     probe_index_dtype(rep)
+    restart_search(rep, rng, 120 if quick else 3000)
     if rep.broken and not rep.failing:
         search(rep, seed, 60 if quick else 1500)
 
@@ -457,6 +498,64 @@ def laws(rep, rng, n_cases):
         if msg:
             rep.fail(msg, dict(kind="helpers", p=p, q=q, s=s))
         rep.case(key=("laws", tuple(p), tuple(q)), nontrivial=n >= 2, trace=False)
+
+
+def gen_tie_matrix(rng, n):
+    """small, partly sparse, equal-weight symmetric matrices: many candidates tie, RCM often cannot improve a
+    lucky random start, the identity order is rarely optimal."""
+    M = [[0.0] * n for _ in range(n)]
+    dens = rng.choice([0.25, 0.4, 0.6])
+    w = rng.choice([[1.0], [1.0], [1.0, -1.0], [1.0, 2.0], [0.5, 1.0, -1.0]])
+    for i in range(n):
+        for j in range(i + 1, n):
+            if rng.random() < dens:
+                M[i][j] = M[j][i] = rng.choice(w)
+    return M
+
+
+def run_real_rng(M, samples, torch_seed, rcm="real"):
+    """minimize_bandwidth with the REAL torch RNG and the real RCM (nothing replaced; only a spy that copies what
+    each minimize_bandwidth_impl call returns); rcm="identity": RCM replaced by one that never improves anything
+    (every start comes back unchanged — the restarts themselves compete). -> (status, perm, tapes)"""
+    import torch
+    tapes = Tapes(None, len(M), "record" if rcm == "real" else "forced", "identity", spy=True, rnd_mode="record")
+    torch.manual_seed(torch_seed)
+    status, perm = run_minimize(M, samples, tapes)
+    return status, perm, tapes
+
+
+def real_rng_oracle(M, samples, torch_seed, rcm="real"):
+    status, perm, tapes = run_real_rng(M, samples, torch_seed, rcm)
+    msg = oracle_minimize(M, status, perm)
+    if not msg and status == "ok":
+        msg = oracle_best(M, perm, tapes.candidates)
+    if not msg and tapes.mutated:
+        msg = INPLACE_MSG.format("minimize_bandwidth", "matrix")
+    return msg, status, tapes
+
+
+def restart_search(rep: Report, rng, ncases: int) -> None:
+    """many seeds of the real RNG on tie-rich matrices of size 4..8: the returned order's actual bandwidth against
+    the original order's and against the best candidate's."""
+    worse = 0
+    for k in range(ncases):
+        n = rng.randint(4, 8)
+        M = gen_tie_matrix(rng, n) if k % 4 else gen_matrix(rng, n, rng.choice(["ring", "grid", "dyadic", "chain"]))[1]
+        samples = rng.choice([3, 5, 10, 20])
+        seed = rng.randrange(2 ** 31)
+        rcm = "real" if k % 3 else "identity"
+        try:
+            msg, status, tapes = real_rng_oracle(M, samples, seed, rcm)
+        except Exception as e:
+            msg, status, tapes = f"minimize_bandwidth raised {type(e).__name__}: {e}", "raise", None
+        if msg:
+            rep.fail(msg, dict(kind="real_rng", M=M, samples=samples, torch_seed=seed, rcm=rcm))
+        if tapes is not None and status == "ok":
+            best = min(bw for _, bw in tapes.candidates)
+            rep.hist("restart_winner", f"rcm={rcm}: " + ("identity start" if tapes.candidates[0][1] == best else "random restart"))
+            rep.hist("restart_improves_on_original", best < py_bandwidth(M))
+        rep.case(key=("real_rng", seed, n), nontrivial=True, trace=False,
+                 sample={"fn": "minimize_bandwidth (real RNG)", "n": n, "samples": samples, "torch_seed": seed})
 
 
 INT32_CLASS = "inv_permutation-int32-index-dtype"
@@ -525,6 +624,8 @@ def search(rep: Report, seed: int, n_cases: int) -> None:
         if msg:
             rep.fail(msg, dict(kind="impl", M=M, init=init, rcm=tapes.rcm))
             return
+    if not rep.failing:
+        restart_search(rep, rng, 10 * n_cases)
     rep.extra["search_cases"] = n_cases
 
 
@@ -545,8 +646,14 @@ class _Replay:
         def rcm(graph, symmetric_mode=False):
             return np.array(self.rcm.pop(0), dtype=np.int32) if self.rcm else real_rcm(graph, symmetric_mode=symmetric_mode)
 
-        def rp(L, *a, **kw):
-            return torch.tensor(self.rnd.pop(0), dtype=torch.int64) if self.rnd else real_rp(L, *a, **kw)
+        def rp(L, *a, out=None, **kw):
+            if not self.rnd:
+                return real_rp(L, *a, out=out, **kw) if out is not None else real_rp(L, *a, **kw)
+            r = torch.tensor(self.rnd.pop(0), dtype=torch.int64)
+            if out is not None:
+                out.resize_(r.shape).copy_(r)
+                r = out
+            return r
         self._cm = [mock.patch.object(opt, "reverse_cuthill_mckee", rcm), mock.patch.object(torch, "randperm", rp)]
         for c in self._cm:
             c.__enter__()
@@ -569,6 +676,8 @@ def replay(rep: Report, path: str) -> int:
         try:
             if d["kind"] == "helpers":
                 msg = pc.helper_laws(d["p"], d["q"], [f"q{i}" for i in range(len(d["p"]))], d["s"])
+            elif d["kind"] == "real_rng":
+                msg = real_rng_oracle(d["M"], d["samples"], d["torch_seed"], d.get("rcm", "real"))[0]
             elif d["kind"] == "inplace":
                 msg = purity_probe(d["fn"], d["M"], d.get("init"), d.get("samples", 1))
             elif d["kind"] == "inv_int32":
@@ -590,6 +699,22 @@ def replay(rep: Report, path: str) -> int:
                     except NotImplementedError:
                         status, perm = "toomanysteps", None
                 msg = oracle_minimize(d["M"], status, perm)
+                if not msg and d.get("best") and status == "ok":
+                    # recompute the candidates under the same tape
+                    tp = Tapes(None, n, "record", spy=True)
+                    with _Replay(d.get("rcm", []), d.get("rnd", [])):
+                        import emu_mps.optimatrix.optimiser as _o
+                        from unittest import mock as _m
+                        real_impl = _o.minimize_bandwidth_impl
+                        cands = []
+
+                        def spy(mx, ip):
+                            p_, b_ = real_impl(mx, ip)
+                            cands.append(([int(i) for i in p_.tolist()], float(b_)))
+                            return p_, b_
+                        with _m.patch.object(_o, "minimize_bandwidth_impl", spy):
+                            r2 = _o.minimize_bandwidth(torch.tensor(d["M"], dtype=torch.float64).reshape(n, n), samples=d["samples"])
+                    msg = oracle_best(d["M"], [int(i) for i in r2.tolist()], cands)
                 if status == "toomanysteps" and d.get("mode") == "record":
                     msg = "minimize_bandwidth raised NotImplementedError with the real RCM"
             else:
